@@ -18,7 +18,7 @@ PROPERTY = 'C03'
 LEVEL = 'fault_enumeration'
 RUNS = {'quick': 6000, 'thorough': 250000}
 SWEEP = True
-SWEEP_CAP = {'quick': 40, 'thorough': 96}
+SWEEP_CAP = {'quick': 48, 'thorough': 110}
 BATCH = 100
 RULE = ('one workload = one generated stack (0-4 middleware components each implementing a subset of '
         'process_request/resource/response, sync or *_async, 0-3 nested before/after hooks, independent or '
@@ -41,9 +41,9 @@ ASSUMPTIONS = (
     'error handlers either return or raise HTTPError/HTTPStatus (other raises are unspecified)',
 )
 
-MW_KINDS = ['complete', 'raise_http', 'raise_app', 'raise_unhandled']
-RESP_KINDS = ['raise_http', 'raise_app', 'raise_unhandled']
-HOOK_KINDS = ['raise_http', 'raise_app']
+MW_KINDS = ['complete', 'raise_http', 'raise_app', 'raise_unhandled', 'raise_status']
+RESP_KINDS = ['raise_http', 'raise_app', 'raise_unhandled', 'raise_status']
+HOOK_KINDS = ['raise_http', 'raise_app', 'raise_status']
 HANDLER_KINDS = ['raise_http', 'raise_status']     # default: set status and return
 
 
@@ -111,6 +111,8 @@ def reference(plan, asg):
     def handle(kind):
         if kind == 'raise_http':
             state['status'] = 409
+        elif kind == 'raise_status':
+            state['status'] = 202        # falcon.HTTPStatus is a raise like any other
         elif kind == 'raise_unhandled':
             state['status'] = 500
         elif kind == 'raise_app':
